@@ -1,4 +1,5 @@
 import Driver.Util
+import ReplicatModel.SizeLit
 open Lean Replicat Replicat.RateLimit
 namespace Driver.HRateLimit
 /-! requests `rate.*` (see DESIGN.md Appendix A).  Rationals cross the tie as `[numerator, denominator]`
@@ -143,6 +144,111 @@ def handleRateLimit (op : String) (j : Json) : Except String Json := do
       ("bytes_in_window", jrat (winBytes (·.tRel) t0 b obs)), ("allowed", jrat (L * (b - t0) + burst L 0 d))])
   | _ => throw s!"unknown op {op}"
 
+/-! ## requests `rate.parse*` — the size literal of `-L` / `--limit-rate` and the transfer piece sizes (`ReplicatModel/SizeLit.lean`).
+Strings cross the tie as lists of code points (a lone surrogate, which Lean's `Char` cannot hold, arrives as NUL — both are
+"any other character" for the grammar); integers that may exceed 2^53 as decimal strings. -/
+section SizeLit
+open Replicat.SizeLit
+
+def jbig (n : Nat) : Json := Json.str (toString n)
+
+def charsOf (j : Json) (k : String) : Except String (List Char) := do
+  pure ((← getNatList j k).map Char.ofNat)
+
+def optStr : Option (List Char) → Json
+  | none => Json.null
+  | some cs => Json.str (String.ofList cs)
+
+def litJson (l : Lit) : Json :=
+  Json.mkObj [("ip", natArr l.ip), ("fp", match l.fp with | none => Json.null | some f => natArr f), ("ws", jnat l.ws),
+    ("prefix", optStr (l.pre.map (·.1))), ("unit", optStr (l.unit.map (fun u => [u.1])))]
+
+def optField (j : Json) (k : String) : Option Json :=
+  match j.getObjVal? k with
+  | .ok Json.null => none
+  | .ok v => some v
+  | .error _ => none
+
+def litOf (j : Json) : Except String Lit := do
+  let ip ← getNatList j "ip"
+  let fp ← match optField j "fp" with
+    | none => pure none
+    | some v => do pure (some (← (← v.getArr?).toList.mapM (·.getNat?)))
+  let ws ← getNat j "ws"
+  let pre ← match optField j "prefix" with
+    | none => pure none
+    | some v => do
+      let key := (← v.getStr?).toList
+      match Gen.sizePrefixes.find? (fun p => p.1 == key) with
+      | some p => pure (some p)
+      | none => throw "prefix: no such key in the table"
+  let unit ← match optField j "unit" with
+    | none => pure none
+    | some v => do
+      match (← v.getStr?).toList with
+      | [c] => match Gen.sizeUnits.find? (fun u => u.1 == c) with
+        | some u => pure (some u)
+        | none => throw "unit: no such key in the table"
+      | _ => throw "unit: one character expected"
+  pure ⟨ip, fp, ws, pre, unit⟩
+
+def litFacts (l : Lit) : List (String × Json) :=
+  [("lit", litJson l), ("wf", Json.bool (decide l.WF)), ("coeff", jbig l.coeff), ("scale", jnat l.scale), ("mult", jbig l.mult),
+   ("unitCoeff", jnat l.unitCoeff), ("unitScale", jnat l.unitScale), ("bytes", jbig (bytes l)), ("bytesDec", jbig (bytesDec l)),
+   ("guard", Json.bool (decide (exactGuard l))),
+   ("value", Json.arr #[Json.str (toString (ratValue l).num), Json.str (toString (ratValue l).den)])]
+
+def resultJson : Except Reject Nat → Json
+  | .ok n => Json.mkObj [("ok", jbig n)]
+  | .error .noMatch => Json.mkObj [("reject", Json.str "noMatch")]
+  | .error .notNatural => Json.mkObj [("reject", Json.str "notNatural")]
+
+def handleSizeLit (op : String) (j : Json) : Except String Json := do
+  match op with
+  | "rate.parse" =>
+    let s ← charsOf j "cps"
+    let res := ("result", resultJson (rateLimit s))
+    let cmd := ("command", match limitOfCommand (some s) with
+      | .ok (some n) => Json.mkObj [("limit", jbig n)]
+      | .ok none => Json.mkObj [("limit", Json.null)]
+      | .error _ => Json.mkObj [("exit", jnat 2)])
+    match parse s with
+    | none => pure (Json.mkObj [("match", Json.bool false), res, cmd])
+    | some l => pure (Json.mkObj (("match", Json.bool true) :: res :: cmd :: litFacts l))
+  | "rate.parse.render" =>
+    let l ← litOf (← j.getObjVal? "lit")
+    let s := render l
+    pure (Json.mkObj (("cps", natArr (s.map (·.toNat))) :: ("reparsed", Json.bool (parse s == some l)) ::
+      ("result", resultJson (rateLimit s)) :: litFacts l))
+  | "rate.parse.absent" =>
+    -- the option is not on the command line: no limiter, whatever the configuration file or the environment say
+    pure (match limitOfCommand none with
+      | .ok none => Json.mkObj [("limit", Json.null)]
+      | .ok (some n) => Json.mkObj [("limit", jbig n)]
+      | .error _ => Json.mkObj [("exit", jnat 2)])
+  | "rate.parse.piece" =>
+    let site ← getStr j "site"
+    let limit ← getNat j "limit"
+    let conc ← getNat j "concurrent"
+    pure (match pieceSize site limit conc with
+      | .ok p => Json.mkObj [("piece", jnat p), ("chunkSize", jnat (chunkSize limit conc))]
+      | .error .zeroDivision => Json.mkObj [("raises", Json.str "ZeroDivisionError")]
+      | .error .malformed => Json.mkObj [("malformed", Json.bool true)])
+  | "rate.parse.tables" =>
+    pure (Json.mkObj [
+      ("prefixes", Json.arr (Gen.sizePrefixes.map (fun p => Json.arr #[Json.str (String.ofList p.1), jbig p.2])).toArray),
+      ("units", Json.arr (Gen.sizeUnits.map (fun u => Json.arr #[Json.str (String.ofList [u.1]), jnat u.2.1, jnat u.2.2])).toArray),
+      ("prec", jnat Gen.decimalPrec), ("zeros", natArr Gen.decimalZeros), ("spaces", natArr Gen.spaceChars),
+      ("fromFile", Json.bool Gen.rateLimitFromFile), ("fromEnv", Json.bool Gen.rateLimitFromEnv),
+      ("sites", Json.arr (Gen.pieceSites.map (fun s => Json.str s.1)).toArray),
+      ("options", Json.arr (Gen.rateLimitOptions.map (fun o => Json.mkObj [
+        ("flags", Json.arr (o.1.map Json.str).toArray), ("type", Json.str o.2.1)])).toArray),
+      ("regexAsExpected", Json.bool (decide (Gen.sizeRegex = expectedRegex (Gen.sizePrefixes.map (·.1)) (Gen.sizeUnits.map (·.1)))))])
+  | _ => throw s!"unknown op {op}"
+
+end SizeLit
+
 end Driver.HRateLimit
 
-def Driver.handleRateLimit := Driver.HRateLimit.handleRateLimit
+def Driver.handleRateLimit (op : String) (j : Lean.Json) : Except String Lean.Json :=
+  if op.startsWith "rate.parse" then Driver.HRateLimit.handleSizeLit op j else Driver.HRateLimit.handleRateLimit op j
